@@ -528,11 +528,11 @@ Section Core.
     add_back_round c [(ver, U)] vs n m p = fold_left ab_step vs (UOk (m, p, false, n)).
   Proof. intros vs n m p. reflexivity. Qed.
 
-  Lemma rounds_nice : forall fuel os n p b p' n', fst p = ver -> nice_rm b (snd p) ->
-    add_back_rounds fuel c [(ver, U)] (ver :: os) n (ver, M) p = UOk (p', n') ->
+  Lemma rounds_nice : forall fuel os n p b prev p' n', fst p = ver -> nice_rm b (snd p) ->
+    add_back_rounds fuel c [(ver, U)] (ver :: os) n (ver, M) p prev = UOk (p', n') ->
     fst p' = ver /\ nice_rm true (snd p').
   Proof.
-    induction fuel as [|fuel IH]; intros os n p b p' n' Hp HP H; [discriminate|].
+    induction fuel as [|fuel IH]; intros os n p b prev p' n' Hp HP H; [discriminate|].
     cbn [add_back_rounds] in H. rewrite add_back_round_fold in H.
     match type of H with
     | context [fold_left ?f ?l ?a] =>
@@ -541,7 +541,9 @@ Section Core.
     destruct (round_nice (ver :: os) n p b false m1 p1 ch1 n1 Hp HP Er) as (-> & Hp1 & _ & HP1).
     specialize (HP1 (or_introl eq_refl)).
     match type of H with context [if ?bb then _ else _] => destruct bb end.
-    - apply (IH os n1 p1 true p' n' Hp1 HP1 H).
+    - match type of H with context [if ?bb then _ else _] => destruct bb end.
+      + inversion H; subst. auto.
+      + apply (IH os n1 p1 true (Some p1) p' n' Hp1 HP1 H).
     - inversion H; subst. auto.
   Qed.
 
@@ -578,10 +580,10 @@ Section Core.
               | UErr e => UErr e
               end = UOk (pruned, n1)).
     { match type of H with
-      | context [add_back_rounds ?fu c ?mv (ver :: ?o) ?nn ?mm ?pp] =>
-          destruct (add_back_rounds fu c mv (ver :: o) nn mm pp) as [[pruned1 n2]|e] eqn:Erounds;
+      | context [add_back_rounds ?fu c ?mv (ver :: ?o) ?nn ?mm ?pp ?pv] =>
+          destruct (add_back_rounds fu c mv (ver :: o) nn mm pp pv) as [[pruned1 n2]|e] eqn:Erounds;
             [|discriminate H];
-          destruct (rounds_nice fu o nn pp false pruned1 n2 eq_refl HP0 Erounds) as [Hp1 HP1]
+          destruct (rounds_nice fu o nn pp false pv pruned1 n2 eq_refl HP0 Erounds) as [Hp1 HP1]
       end.
       exists pruned1, n2. auto. }
     clear H. destruct Hrounds as (pruned1 & n2 & Hp1 & HP1 & H).
